@@ -412,8 +412,11 @@ def for_loop(eng, s, st, fr, k):
             n = f_len(it.t)
             _j = z3.Int("it_j")
             elem_f = z3.Function("iter_elem", E_V, z3.IntSort(), E_V)
-            cell = {"seq": z3.Lambda([_j], elem_f(it.t, _j)), "n": n, "pos": z3.IntVal(0), "#may_raise": False}
-            st1 = St(st1.env, {**st1.heap, base: cell}, st1.pc + [n >= 0], st1.ghost)
+            # (an array constant defined by a quantified fact rather than a lambda term: cvc5 cannot parse z3's lambdas)
+            seq = z3.Array(base + ".seq", z3.IntSort(), E_V)
+            cell = {"seq": seq, "n": n, "pos": z3.IntVal(0), "#may_raise": False}
+            st1 = St(st1.env, {**st1.heap, base: cell},
+                     st1.pc + [n >= 0, z3.ForAll([_j], z3.Select(seq, _j) == elem_f(it.t, _j), patterns=[z3.Select(seq, _j)])], st1.ghost)
             return generators.iter_loop(eng, s, Ref(base, "iter"), st1, fr, k, enum_start=enum_start)
         if isinstance(it, Ref) and it.kind == "iter":
             from . import generators
